@@ -117,8 +117,45 @@ def _replay_region_to_extent(inputs):
     return out
 
 
-def replay(target, inputs):
+def _bins_frame(fr):
+    """{"opaque": "DataFrameV"} cannot be rebuilt: frames are passed through their ghost arrays"""
+    raise NotImplementedError
+
+
+@custom("cooler.util:get_binsize")
+def _replay_get_binsize(inputs, ghost=None):
+    import pandas as pd
+    from cooler.util import get_binsize
+    g = {k: conv(v) for k, v in (ghost or {}).items()}
+    off, start, end = g["off"], g["start"], g["end"]
+    nchrom = int(g["nchrom"])
+    chrom = np.zeros(len(start), dtype=int)
+    for c in range(nchrom):
+        chrom[int(off[c]):int(off[c + 1])] = c
+    names = [f"chr{c}" for c in range(nchrom)]
+    bins = pd.DataFrame({"chrom": pd.Categorical.from_codes(chrom, names, ordered=True), "start": start, "end": end})
+    out = {"inputs_used": bins.to_dict("list")}
+    b = get_binsize(bins)
+    out["returned"] = repr(b)
+    viol = []
+    if b is not None:
+        for c in range(nchrom):
+            lo, hi = int(off[c]), int(off[c + 1])
+            L = int(end[hi - 1])
+            for k in range(lo, hi):
+                if not (start[k] == (k - lo) * b and end[k] == min((k - lo + 1) * b, L)):
+                    viol.append(f"reported fixed size {b} but bin {k} of chromosome {c} is [{start[k]},{end[k]}), "
+                                f"not [{(k - lo) * b},{min((k - lo + 1) * b, L)})")
+                    break
+    out.update(raised=None, violations=viol[:3], violates_contract=bool(viol))
+    return out
+
+
+def replay(target, inputs, ghost=None):
     if target in CUSTOM:
+        import inspect
+        if "ghost" in inspect.signature(CUSTOM[target]).parameters:
+            return CUSTOM[target](inputs, ghost=ghost)
         return CUSTOM[target](inputs)
     c = load_contract(target)
     args = {k: conv(v) for k, v in inputs.items()}
